@@ -268,7 +268,7 @@ def gen_cases(rng, tier):
           if hard and q["state"] is None:
             q["state"] = SQ[0]            # un-quantized activations only with a state quantizer (bit growth)
           if cls == "gru" and rep % 7 in (3, 6):
-            q["recurrent"] = None          # the recorded defect: input kernel used as recurrent kernel
+            q["recurrent"] = None          # no recurrent quantizer (site repaired in 32aca3c)
           q["act"] = "hard_tanh" if hard else ["quantized_tanh(4)", "quantized_tanh(3,symmetric=1)"][i % 2]
           q["ract"] = "hard_sigmoid" if hard else ["quantized_sigmoid(4)", "quantized_sigmoid(3)"][(i // 2) % 2]
           in_dim = units if (cls == "gru" and rep % 7 == 3) else 2 + i % 2
@@ -559,20 +559,20 @@ def run_recurrent(c):
             "weights": [tj(w) for w in W], "quant": quant, "actv": [qspec(q["act"]), qspec(q.get("ract"))]}
 
 
-# ----------------------------------------------------------------------------- known crash sites
+# ----------------------------------------------------------------------------- formerly broken sites
 
-def crash_key(c):
-  """key of a recorded 'does not run' site, with the exact error it is recorded with (in the order the
-  code reaches them)"""
+def site_of(c):
+  """label of the four sites repaired in /repo (32aca3c, 0736682, d2aee32, c93cc1b); they are part of
+  the generated grid and a regression there is reported under its own key"""
   if c.cls == "sepconv1d" and c.geo["padding"] == "causal":
-    return {"cls": "sepconv1d", "site": "causal-padding-call"}, ("TypeError", "_compute_causal_padding")
+    return "causal-padding-call"
   if c.cls == "lstm" and not c.geo["use_bias"] and c.q["bias"] is not None:
-    return {"cls": "lstm", "site": "bias-quantizer-without-bias"}, ("ValueError", "NoneType")
+    return "bias-quantizer-without-bias"
+  if c.cls == "gru" and c.q["recurrent"] is None:
+    return "no-recurrent-quantizer"
   if c.cls == "gru" and c.geo["reset_after"] and c.geo["use_bias"]:
-    return {"cls": "gru", "site": "reset-after-unstack"}, ("AttributeError", "unstack")
-  if c.cls == "gru" and c.q["recurrent"] is None and c.geo["in_dim"] != c.geo["units"]:
-    return {"cls": "gru", "site": "no-recurrent-quantizer"}, ("InvalidArgumentError", "Matrix size-incompatible")
-  return None, None
+    return "reset-after-unstack"
+  return None
 
 
 def same(a, b):
@@ -626,7 +626,10 @@ def run(run: core.Run, tier: str):
 
   for c, o in zip(live, outs):
     key0 = {"cls": c.cls}
-    ckey, cerr = crash_key(c)
+    site = site_of(c)
+    if site is not None:
+      key0["site"] = site
+      run.count("site_" + site)
     # ------------------------------------------------------------ model outputs (exact rationals)
     if c.cls in ("simplernn", "lstm", "gru"):
       steps = o["steps"]
@@ -644,19 +647,13 @@ def run(run: core.Run, tier: str):
       shp, data, m_ok = model_tensor(o["y"])
       model = [(shp, data)] if m_ok else None
     if not o.get("dropin", False) and m_ok:
-      # the instance of the drop-in theorem evaluated by the driver itself must hold (GRU without a
-      # recurrent quantizer is the recorded counterexample)
-      if not (c.cls == "gru" and c.q["recurrent"] is None) and not (c.cls == "sepconv1d" and AUTO in c.q.values()):
+      # the instance of the drop-in theorem evaluated by the driver itself must hold
+      if not (c.cls == "sepconv1d" and AUTO in c.q.values()):
         run.disagree("theorem-instance", c.label, "-", "model's own drop-in equation is false on this instance")
     # ------------------------------------------------------------ crashes
     if c.err is not None:
       run.count("impl_raises_" + c.err[0])
-      if ckey is not None:
-        recorded = c.err[0] == cerr[0] and cerr[1] in c.err[1]
-        mirrored = recorded and ((not m_ok) if ckey["site"] == "no-recurrent-quantizer" else True)
-        run.violate("runs", dict(ckey, error=c.err[0]), {"case": c.label, "error": list(c.err)}, mirrored=mirrored)
-      else:
-        run.violate("runs", dict(key0, error=c.err[0]), {"case": c.label, "error": list(c.err)}, mirrored=False)
+      run.violate("runs", dict(key0, error=c.err[0]), {"case": c.label, "error": list(c.err)}, mirrored=False)
       continue
     if not m_ok:
       run.disagree("model-rejects", c.label, "runs", "model shape error")
@@ -687,8 +684,6 @@ def run(run: core.Run, tier: str):
     run.compared += 1
     if not ok2:
       key = dict(key0)
-      if c.cls == "gru" and c.q["recurrent"] is None:
-        key = {"cls": "gru", "site": "no-recurrent-quantizer"}
       diffs = [[(int(i), str(F(float(a.ravel()[i]))), str(F(float(b.ravel()[i]))))
                 for i in np.flatnonzero(a.ravel() != b.ravel())[:3]] if a.shape == b.shape else
                (str(a.shape), str(b.shape)) for a, b in zip(c.impl, c.oracle)]
@@ -704,8 +699,7 @@ def run(run: core.Run, tier: str):
     if c.cls in ("simplernn", "lstm", "gru") and all(c.q[k] is None for k in ("kernel", "recurrent", "bias", "state")):
       run.count("no_quantizer_cases")
       if not all(same(a, b) for a, b in zip(c.impl, c.stock_raw)):
-        key = {"cls": "gru", "site": "no-recurrent-quantizer"} if c.cls == "gru" else key0
-        run.violate("no_quantizer", key, {"case": c.label}, mirrored=mirrored)
+        run.violate("no_quantizer", key0, {"case": c.label}, mirrored=mirrored)
     # ------------------------------------------------------------ tie 3: get_quantizers
     if c.cls != "activation":
       slots = SLOTS[c.cls]
